@@ -1,6 +1,7 @@
 """C11 - a load that returns means required fields are set and every validator passed."""
 import copy
 import os
+import random
 
 from .. import gen, history, model, spec, trees
 from ..common import plain
@@ -19,11 +20,16 @@ RULE = ("schemas with required fields (with and without defaults), schema-level 
         "entry of this call for every validator of an enabled schema and of every loaded field; collecting mode must "
         "be empty exactly when raising mode does not raise; a load must not raise when the only unmet requirements "
         "are own required fields / schema validators of a disabled sub-configuration; inserted list items with a "
-        "missing required field must be rejected; non-trivial = >= 1 returning call judged plus >= 1 further call (returning or raising); distinct = "
+        "missing required field must be rejected; configurations built from a look-alike schema (same keys and kinds of fields, nothing "
+        "required, no validators) are offered for sections before a call and for list items (judged by the same walk over the declared "
+        "schema); a list of configurations with declared default items (maps / objects, list / callable, incomplete at creation or "
+        "after the defaults changed and the list was reset) is validated and loaded and judged by the same walk; "
+        "non-trivial = >= 1 returning call judged plus >= 1 further call (returning or raising); distinct = "
         "distinct (schema, calls)")
 REQUIRED = ("required_fields_added_to_the_schema_after_the_configuration_was_built", "fields_with_two_registered_validators", "documents_listing_feature_flags_last", "config_types_with_validators_registered_after_make_type", "trees_with_a_section_given_as_configuration_object", "same_file_loaded_again_after_in_place_change", "feature_flags_redeclared_as_plain_booleans", "schemas_with_shared_validator_decorator", "schemas_with_sections_named_like_config_methods", "sections_shared_with_a_second_parent", "loads_with_empty_required_values", "reinsertions_of_invalidated_members", "calls_returned_judged", "calls_raised", "required_walks", "validator_log_checks", "collect_mode_compared",
             "exemption_cases_judged", "list_item_insertions_judged", "call:load_tree", "call:loads", "call:load", "call:validate",
-            "flags_off_seen", "failing_validators_seen")
+            "flags_off_seen", "failing_validators_seen", "lookalike_configurations_offered_for_a_section",
+            "lookalike_configurations_offered_for_a_list_item", "default_item_lists_declared", "default_item_calls_returned_judged")
 ASSUMPTIONS = ["one-directional: nothing is demanded of calls that raise, except the exemption of disabled sub-configurations",
                "sub-configurations nested inside a disabled one: no claim either way",
                "field validators are only expected to have run for fields that hold a value (a validator is not called "
@@ -194,7 +200,84 @@ def generate(rng, ctx):
             if secs:
                 call["share"] = rng.choice(secs)
         calls.append(call)
-    return {"schema": schema, "calls": calls}
+    case = {"schema": schema, "calls": calls}
+    _more_workload(random.Random(rng.getrandbits(64)), case, env)
+    return case
+
+
+def _own_demands(node):
+    """Does the (sub)configuration of this node demand anything by itself (a required field without default, a validator)?"""
+    sch = model.fields_of(node)
+    if sch.get("validators"):
+        return True
+    for ch in sch["fields"]:
+        if ch["kind"] == "field" and (ch.get("params", {}).get("required") and ch["params"].get("default") is None
+                                      or ch.get("params", {}).get("validator")):
+            return True
+    return False
+
+
+def _more_workload(rng, case, env):
+    """Workload added later, drawn from a random stream of its own (the cases generated before stay what they were):
+    configurations built from a LOOK-ALIKE schema (another call of the application's schema factory: same keys, same kinds of
+    fields, nothing required, no validators) handed over for a section or for an item of a configuration list; and a
+    configuration list whose DEFAULT items are incomplete (at creation, or after the application changed its defaults)."""
+    schema, calls = case["schema"], case["calls"]
+    secs = [(p, nd) for p, nd in spec.walk(schema) if nd["kind"] in ("schema", "ctype") and "[]" not in p]
+    demanding = [(p, nd) for p, nd in secs if _own_demands(nd)]
+    for call in calls:
+        if call["call"] in ("validate", "load_tree", "loads", "load") and secs and rng.random() < 0.35:
+            p, nd = rng.choice(demanding if demanding and rng.random() < 0.8 else secs)
+            call["lookalike"] = {"path": p, "tree": gen.tree_for(rng, nd, env, valid=True, partial=rng.choice([0.0, 0.5, 0.9])),
+                                 "drop": rng.random() < 0.7}
+    lists = [(p, nd) for p, nd in spec.walk(schema) if nd["kind"] == "field" and nd["family"] == "list"
+             and nd.get("item") and nd["item"]["kind"] != "field" and "[]" not in p]
+    if lists:
+        for _ in range(rng.choice([0, 1, 1, 2])):
+            p, nd = rng.choice(lists)
+            calls.insert(rng.randrange(len(calls) + 1), {
+                "call": "insert", "path": p, "how": "lookalike", "via": rng.choice(["setitem", "append", "insert", "slice", "extend"]),
+                "item": gen.tree_for(rng, nd["item"], env, valid=True, partial=rng.choice([0.0, 0.5, 0.9])), "drop": rng.random() < 0.7})
+    if rng.random() < 0.3:
+        case["default_items"] = _gen_default_items(rng, env)
+
+
+def _gen_default_items(rng, env):
+    """A schema of its own: a name and a list of configurations whose field declares default items."""
+    fams = ["str", "int", "float", "bool", "port", "host", "loglevel", "str", "int"]
+    item = gen.gen_schema(rng, depth=rng.choice([0, 0, 1]), width=rng.choice([2, 3, 4]), families=fams, defaults=0.5, dynamic=0.0,
+                          lists_of_cfg=False, ctypes=False)
+    if rng.random() < 0.6:
+        decorate(rng, item, 1)
+    own = [ch for ch in item["fields"] if ch["kind"] == "field" and ch["family"] not in ("flag", "virtual", "method", "include")]
+    musts = [ch for ch in own if ch["params"].get("required") and ch["params"].get("default") is None]
+    if not musts:
+        if own:
+            must = rng.choice(own)
+        else:
+            must = {"kind": "field", "key": gen.pick_keys(rng, 1, avoid={ch["key"] for ch in item["fields"]})[0], "family": "str",
+                    "params": {}}
+            item["fields"].append(must)
+        must["params"]["required"] = True
+        must["params"].pop("default", None)
+        musts = [must]
+    keys = gen.pick_keys(rng, 2, avoid={ch["key"] for ch in item["fields"]})
+    items = [gen.tree_for(rng, item, env, valid=True, partial=rng.choice([0.0, 0.5, 0.9])) for _ in range(rng.choice([1, 1, 2, 3]))]
+    mode = rng.choice(["good", "bad", "bad", "late", "late"])
+    bad = gen.tree_for(rng, item, env, valid=True, partial=rng.choice([0.0, 0.5, 0.9]))
+    for ch in musts:
+        if rng.random() < 0.7 or ch is musts[0]:
+            bad.pop(ch["key"], None)
+    calls = []
+    for _ in range(rng.randrange(1, 4)):
+        kind = rng.choice(["validate", "load_tree", "loads"])
+        call = {"call": kind}
+        if kind != "validate":
+            call["tree"] = rng.choice([{}, {keys[0]: rng.choice(["svc", "svc2", "x"])}])
+            call["fmt"] = rng.choice(trees.FORMATS)
+        calls.append(call)
+    return {"item": item, "name_key": keys[0], "list_key": keys[1], "items": items, "bad": bad, "bad_at": rng.randrange(len(items) + 1),
+            "mode": mode, "as_type": rng.random() < 0.4, "callable": rng.random() < 0.6, "objects": rng.random() < 0.35, "calls": calls}
 
 
 def abbreviate(case):
@@ -290,6 +373,8 @@ def run(case, ctx, res):
     if any(nd.get("shared_decorator") for _p, nd in [("", case["schema"])] + list(spec.walk(case["schema"]))):
         res.count("schemas_with_shared_validator_decorator")
     twin = None
+    if case.get("default_items"):
+        _default_items(ctx, res, spec.resolve(case["default_items"], drv.mapping), env)
     for idx, call in enumerate(case["calls"]):
         kind = call["call"]
         mark = len(log)
@@ -336,6 +421,8 @@ def run(case, ctx, res):
                         cc.reset_value(sec, req[0])
             except Exception:
                 res.count("share_not_applicable")
+        if call.get("lookalike"):
+            _offer_lookalike_section(drv, res, call["lookalike"])
         tree = copy.deepcopy(call.get("tree"))
         label = None
         if kind in ("load_tree", "loads", "load"):
@@ -553,6 +640,8 @@ def _insert(drv, res, call, idx):
     nd = drv.node(call["path"])
     if call["how"] == "reinsert":
         return _reinsert(drv, res, call, idx, lst, nd)
+    if call["how"] == "lookalike":
+        return _insert_lookalike(drv, res, call, idx, lst, nd)
     item = copy.deepcopy(call["item"])
     ok, norm = model.accepts_tree(nd["item"], call["item"], drv.env)
     if ok is None:
@@ -625,3 +714,203 @@ def _reinsert(drv, res, call, idx, lst, nd):
         res.viol("M-required" if unmet[0][0] == "required" else "M-validators", "reinsert:" + unmet[0][0],
                  "call %d: a member of %s made invalid in place was put back with %s and accepted although %s" % (
                      idx, call["path"], via, unmet[0][2]))
+
+
+# ------------------------------------------------------------------------------------------------
+# configurations built from a look-alike schema
+
+
+def _lookalike_node(node):
+    """Spec of a look-alike of a schema / config-type node: the same keys in the same order holding the same kinds of fields
+    (what another call of the application's schema factory yields), but nothing is required and no validator is registered."""
+    out = {"kind": "schema", "key": "", "fields": []}
+    src = model.fields_of(node)
+    if src.get("dynamic"):
+        out["dynamic"] = True
+    for ch in src["fields"]:
+        if ch["kind"] == "schema":
+            sub = _lookalike_node(ch)
+            sub["key"] = ch["key"]
+            out["fields"].append(sub)
+            continue
+        ch = copy.deepcopy(ch)
+        if ch["kind"] == "field":
+            for name in ("required", "validator", "validator2", "validators_by_one_decorator"):
+                ch.get("params", {}).pop(name, None)
+            if ch["family"] == "list" and ch.get("item") and ch["item"]["kind"] != "field":
+                item = _lookalike_node(ch["item"])
+                ch["item"] = item if ch["item"]["kind"] == "schema" else dict(ch["item"], schema=item)
+        out["fields"].append(ch)
+    return out
+
+
+def _lookalike_draft(cc, node, tree, drop):
+    """A configuration of a look-alike schema of `node`, filled from `tree` (on-disk forms that the declared fields accept);
+    with `drop` the values of the fields that the DECLARED schema requires are left out."""
+    schema = spec.build(cc, _lookalike_node(node)).schema
+    draft = schema()
+    sub = dict(tree)
+    if drop:
+        for ch in model.fields_of(node)["fields"]:
+            if ch["kind"] == "field" and ch.get("params", {}).get("required"):
+                sub.pop(ch["key"], None)
+    try:
+        draft.load_tree(sub)
+    except Exception:
+        draft = schema()  # (its defaults only)
+    return draft
+
+
+def _offer_lookalike_section(drv, res, look):
+    """Before the call: a configuration built from a look-alike schema is assigned to a section.  Nothing is demanded of the
+    assignment itself (the library may refuse the configuration, or keep it and hold it to the declared fields); the call that
+    follows is judged by the walk over the DECLARED schema as every other call is."""
+    nd = spec.node_at(drv.root, look["path"])
+    if nd is None or nd["kind"] not in ("schema", "ctype"):
+        return
+    try:
+        draft = _lookalike_draft(drv.cc, nd, look["tree"], look.get("drop"))
+    except Exception:
+        res.count("lookalike_not_applicable")
+        return
+    res.count("lookalike_configurations_offered_for_a_section")
+    try:
+        drv.cfg[look["path"]] = draft
+        res.count("lookalike_configurations_taken_for_a_section")
+    except Exception:
+        res.count("lookalike_configurations_refused_for_a_section")
+
+
+def _insert_lookalike(drv, res, call, idx, lst, nd):
+    """A configuration built from a look-alike of the item schema is offered to a configuration list: inserted items are held
+    to the rule of the DECLARED item schema."""
+    try:
+        draft = _lookalike_draft(drv.cc, nd["item"], call["item"], call.get("drop"))
+    except Exception:
+        res.count("lookalike_not_applicable")
+        return
+    via = call.get("via", "append")
+    try:
+        if via == "append":
+            lst.append(draft)
+        elif via == "extend":
+            lst.extend([draft])
+        elif via == "insert":
+            lst.insert(0, draft)
+        elif via == "slice":
+            lst[0:0] = [draft]
+        elif len(lst):
+            lst[0] = draft
+        else:
+            lst.append(draft)
+        err = None
+    except Exception as exc:
+        err = exc
+    res.count("list_item_insertions_judged")
+    res.count("lookalike_configurations_offered_for_a_list_item")
+    if err is not None:
+        return
+    members = [m for m in lst if m is draft]
+    unmet, dis = [], []
+    if members:
+        walk_unmet(nd["item"], plain(draft), call["path"] + "[]", unmet, dis)
+    # offered by this harness step: taken out again, so that later calls see a list of items that were loaded / inserted
+    # through the declared item schema
+    try:
+        while any(m is draft for m in lst):
+            del lst[[i for i, m in enumerate(lst) if m is draft][0]]
+    except Exception:
+        pass
+    if unmet:
+        res.viol("M-required" if unmet[0][0] == "required" else "M-validators", "insert-lookalike:" + unmet[0][0],
+                 "call %d: a configuration built from a look-alike of the item schema of %s (same keys and kinds of fields, nothing "
+                 "required, no validators) was accepted with %s although %s" % (idx, call["path"], via, unmet[0][2]))
+
+
+# ------------------------------------------------------------------------------------------------
+# default items of a configuration list
+
+
+def _default_items(ctx, res, di, env):
+    """A list of configurations whose field declares DEFAULT items (a list, or a callable; maps, or configuration objects of
+    the item type).  The items that the library puts into the list - when the configuration is created, when the list is reset
+    to its default after the application changed its defaults - are items of a configuration list like any other: once a
+    validation / load returns normally the walk must find them complete.  (Nothing is demanded of the creation / the reset:
+    the library may refuse there.)"""
+    cc = ctx.cc
+    item_node = di["item"]
+    try:
+        item_schema = spec.build(cc, item_node).schema
+        item_field = cc.make_type(item_schema, "DefaultItem", module="vf_types") if di["as_type"] else item_schema
+    except Exception:
+        res.count("default_items_not_applicable")
+        return
+    objects = di["objects"]
+    use_callable = di["callable"] or objects or di["mode"] == "late"
+    current = [copy.deepcopy(it) for it in di["items"]]
+    if di["mode"] == "bad":
+        current.insert(di["bad_at"], copy.deepcopy(di["bad"]))
+
+    def produce():
+        out = []
+        for it in copy.deepcopy(current):
+            if objects:
+                obj = item_field()
+                obj.load_tree(it, validate=False)
+                it = obj
+            out.append(it)
+        return out
+
+    root = cc.Schema()
+    root[di["name_key"]] = cc.StringField(default="app")
+    try:
+        root[di["list_key"]] = cc.ListField(item_field, default=produce if use_callable else produce())
+    except Exception:
+        res.count("default_items_not_applicable")
+        return
+    node = {"kind": "schema", "key": "", "fields": [
+        {"kind": "field", "key": di["name_key"], "family": "str", "params": {"default": "app"}},
+        {"kind": "field", "key": di["list_key"], "family": "list", "params": {}, "item": item_node}]}
+    res.count("default_item_lists_declared")
+    res.count("default_item_lists_declared:" + di["mode"])
+    try:
+        cfg = cc.Config(root, key_filename=os.path.join(ctx.dir, "defitems.key"))
+    except Exception:
+        res.count("default_item_lists_refused_at_creation")
+        return
+    if di["mode"] == "late":
+        # second use: the defaults were fine when the configuration was created; the application changed them since and the
+        # list is reset to its default
+        try:
+            cfg.load_tree({di["name_key"]: "first"})
+        except Exception:
+            pass
+        current.insert(di["bad_at"], copy.deepcopy(di["bad"]))
+        try:
+            cc.reset_value(cfg, di["list_key"])
+            res.count("default_item_lists_reset_after_the_defaults_changed")
+        except Exception:
+            res.count("default_item_lists_reset_refused")
+    for idx, call in enumerate(di["calls"]):
+        kind = call["call"]
+        try:
+            if kind == "validate":
+                cfg.validate()
+            elif kind == "load_tree":
+                cfg.load_tree(copy.deepcopy(call["tree"]))
+            else:
+                if not trees.in_domain(call["fmt"], call["tree"]):
+                    continue
+                cfg.loads(cc.ConfigFormat.get(call["fmt"]).dumps(cfg, copy.deepcopy(call["tree"])), call["fmt"])
+        except Exception:
+            res.count("default_item_calls_raised")
+            continue
+        res.count("default_item_calls_returned_judged")
+        unmet, dis = [], []
+        walk_unmet(node, plain(cfg), "", unmet, dis)
+        if unmet:
+            kind0, _p0, msg = unmet[0]
+            res.viol("M-required" if kind0 == "required" else "M-validators", "default-items:%s:%s" % (kind, kind0),
+                     "default items (%s%s, %s): call %d %s returned normally but %s" % (
+                         "configuration objects" if objects else "maps", " from a callable" if use_callable else "", di["mode"], idx, kind, msg))
+            return
